@@ -343,7 +343,8 @@ def _accounting(ctx, repo, cg, cfuncs, base_lock, assume, concurrency=True):
                 ok = any(isinstance(st.value.elts[0], ast.Constant) and st.value.elts[0].value is False and len(st.value.elts) > 1 and src(st.value.elts[1]) == src(a.value) for st in stores)
                 ctx.ob("C18-R4", f.fq, f"(A1) `total += {src(a.value)}` comes with the store of the entry it accounts for", ok, node=a, construct=f"A1 total += without entry in {f.name}")
                 # C16-R5: dominated by a successful capacity check
-                ok = any((isinstance(e, ast.Name) and pol) for e, pol in atoms_at(a, f.node) if isinstance(e, ast.Name) and _is_capacity_result(e.id, f))
+                ok = any((isinstance(e, ast.Name) and pol) for e, pol in atoms_at(a, f.node) if isinstance(e, ast.Name) and _is_capacity_result(e.id, f)) or \
+                    any(pol and isinstance(e, ast.Call) and callee_name(e) == "recover_memory" for e, pol in atoms_at(a, f.node))      # tested directly, without a name for the verdict
                 ctx.ob("C18-R4", f.fq, "(A1) bytes are added only under a successful capacity check (recover_memory result)", ok, node=a, construct=f"total += under capacity check in {f.name}",
                        msg="bytes are added to the total without a successful recover_memory(): the cache can exceed its configured limit")
             # A5: a placeholder for I/O submitted here may only overwrite an entry whose bytes were taken off the total first
